@@ -16,10 +16,11 @@
 import OpmVerif.Model.Scan
 import OpmVerif.Model.DeckWrite
 import OpmVerif.Model.RawKw
+import OpmVerif.Model.Deck
 -- driver: prefix=deck handler=OpmVerif.DeckIO.handle
 
 namespace OpmVerif.DeckIO
-open OpmVerif.Lex OpmVerif.Tok OpmVerif.Scan OpmVerif.DeckWrite OpmVerif.RawKw
+open OpmVerif.Lex OpmVerif.Tok OpmVerif.Scan OpmVerif.DeckWrite OpmVerif.RawKw OpmVerif.Deck
 
 def hx (b : Bytes) : String := if b.isEmpty then "-" else toHex b
 
@@ -217,6 +218,59 @@ def handleKw (args : List String) : String :=
     | _, _, _, _, _ => "bad-op"
   | _ => "bad-op"
 
+/-- size spec on the wire: S | U | D | F<n> | O<kwhex>.<idx>.<T|F> -/
+def parseSizeSpec (s : String) : Option SizeSpec :=
+  if s = "S" then some .slash else if s = "U" then some .unknown else if s = "D" then some .doubleSlash
+  else if s.startsWith "F" then (s.drop 1).toString.toNat?.map SizeSpec.fixed
+  else if s.startsWith "O" then
+    match (s.drop 1).toString.splitOn "." with
+    | [kw, idx, t] => match ofHex kw, idx.toNat? with
+      | some k, some i => some (.other k i (t == "T"))
+      | _, _ => none
+    | _ => none
+  else none
+
+/-- keyword definition on the wire: `<namehex>=<size>,<raw>,<min|->,<alt>,<dbl>,<schemas>` -/
+def parseKwDef (s : String) : Option (Bytes × KwDef) :=
+  match s.splitOn "=" with
+  | [nm, rest] =>
+    match ofHex nm, rest.splitOn "," with
+    | some name, [sz, raw, mn, alt, dbl, sch] =>
+      match parseSizeSpec sz, parseSchemas sch with
+      | some size, some schemas =>
+        some (name, { size := size, raw := raw == "1", minSize := if mn = "-" then none else some mn.toNat!,
+                      schemas := schemas, alt := alt == "1", dbl := dbl == "1" })
+      | _, _ => none
+    | _, _ => none
+  | _ => none
+
+def parseFiles (s : String) : Option (List (Bytes × Bytes)) :=
+  if s = "-" then some []
+  else (s.splitOn ",").mapM fun p =>
+    match p.splitOn "=" with
+    | [a, b] => match ofHex a, ofHex b with
+      | some x, some y => some (x, y)
+      | _, _ => none
+    | _ => none
+
+/-- deck.deck <fuel> <kwdefs ~> <recognised names> <files> <text> -/
+def handleDeck (args : List String) : String :=
+  match args with
+  | [fuel, defs, names, files, text] =>
+    match (defs.splitOn "~").mapM parseKwDef, parseNames names, parseFiles files, ofHex text with
+    | some tbl, some recNames, some fl, some txt =>
+      let lookupFile := fun (p : Bytes) => match fl.find? (fun q => q.1 == p) with
+        | some q => some q.2
+        | none => none
+      match parseDeckText conv tbl (fun n => recNames.contains n) lookupFile fuel.toNat! txt with
+      | none => "err"
+      | some deck =>
+        if deck.isEmpty then "ok -"
+        else "ok " ++ "~".intercalate (deck.map fun k =>
+          hx k.name ++ "=" ++ (if k.records.isEmpty then "none" else "|".intercalate (k.records.map showRecord)))
+    | _, _, _, _ => "bad-op"
+  | _ => "bad-op"
+
 /-- keyword on the wire: `<namehex>:<data01>:<slash01>:<rec|rec|…|none>` -/
 def readKwOut (s : String) : Option KwOut :=
   match s.splitOn ":" with
@@ -292,6 +346,7 @@ def handle (op : String) (args : List String) : String :=
       | some r => showRecord r
     | _, _, _ => "bad-op"
   | "deck.kw", _ => handleKw args
+  | "deck.deck", _ => handleDeck args
   | "deck.codekws", _ =>
     -- the translator's view of the code keywords (share/keywords/*), sorted by name
     let l := OpmVerif.Gen.RawConsts.codeKeywords.map fun kw => hx kw.1 ++ ":" ++ hx kw.2
